@@ -149,7 +149,7 @@ def main(ctx):
     wb = ctx.build("writers")
     cases = os.path.join(ctx.scratch, "cases.ndjson")
     with open(cases, "wb") as f:
-        ctx.run([wb, "gen", "-shapes", sp, "-tier", ctx.tier, "-reps", "1" if ctx.quick else "3"], stdout=f)
+        ctx.run([wb, "gen", "-shapes", sp, "-tier", ctx.tier, "-reps", "4" if ctx.quick else "8"], stdout=f)
     # (c) run and judge
     recs = judge(ctx, cases)
     for r in recs:
